@@ -841,6 +841,47 @@ class Assembler:
                         continue
                     raise
                 cands = [c for c in closures if c[0] > k1]
+            if 'containing' in cl:
+                # the closure whose BODY contains the given text (the innermost one): a contract tied to what the closure does,
+                # not to where it stands; `optional = true` drops it (moot) when no closure contains the text any more
+                kxs = []
+                n_ = 0
+                while True:
+                    try:
+                        kx_, _ky = fp.find_stmt(cl['containing'], n_)
+                    except ExtractError:
+                        break
+                    kxs.append(kx_)
+                    n_ += 1
+                def c_end(c):
+                    kq = c[1] + 1
+                    mm_ = s.match()
+                    if s.is_p(kq, '->'):
+                        while not s.is_p(kq, '{'):
+                            kq += 1
+                    if s.is_p(kq, '{'):
+                        return mm_[kq]
+                    j_ = kq
+                    while j_ < fp.k_body_close:
+                        if s.kind(j_) == 'p':
+                            cc_ = s.s(j_)
+                            if cc_ in '([{':
+                                j_ = mm_[j_] + 1
+                                continue
+                            if cc_ in ')]},;':
+                                break
+                        j_ += 1
+                    return j_ - 1
+                inner = [c for c in closures if any(c[1] < kx <= c_end(c) for kx in kxs)]
+                if not inner:
+                    if cl.get('optional'):
+                        self.dropped_closure_contracts.append('%s: closure contract for the closure containing `%s` (no such closure)' % (fnname, cl['containing']))
+                        for x_ in list(cl.get('requires', [])) + list(cl.get('ensures', [])):
+                            self.moot.append(split_clause(x_)[0])
+                        continue
+                    raise ExtractError('lost anchor: no closure of fn %s contains `%s`' % (fnname, cl['containing']))
+                cands = [max(inner, key=lambda c: c[0])]
+                kidx = 0
             if kidx >= len(cands):
                 raise ExtractError('lost anchor: closure %d of fn %s (has %d)' % (kidx, fnname, len(cands)))
             ka, kb = cands[kidx]
